@@ -30,6 +30,12 @@ def corpus(tier, seed):
     ]
     specs = [std_spec(m, s + i, n, kills=k, resume_after_done=1 if i % 3 == 0 else 0, **kw)
              for i, (m, n, k, kw) in enumerate(base)]
+    # checkpoint_on_training: the periodic checkpoint written when training fires inside consume_sample,
+    # followed immediately by a kill
+    mid = std_spec("gauss2", s + 90, 20, checkpoint_on_training=True, maximum_uninformed=20, poolsize=25,
+                   update_poolsize=False, checkpoint_interval=1)
+    mid["extra_by_proc"] = {"0": {"kill_after_mid_ckpt": True}}
+    specs.append(mid)
     if tier == "thorough":
         j = len(specs)
         import random
